@@ -351,6 +351,15 @@ def _c08_stored_food_wiring():
 
 
 CONTRACTS = _c08_stored_food_wiring()
+def _c01_variable_bounds():
+    """Completeness (every physically feasible allocation lifts to a point of the model) assumes the variables have no bound
+    other than non-negativity.  C01's contract of Optimizer.create_lp_variables (lower bound 0, NO upper bound), re-run under this property."""
+    from contracts import C01
+    from contracts.common import relabelled
+    return relabelled([c for c in C01.CONTRACTS if type(c).__name__ == "LowBound"], "C02")
+
+
+CONTRACTS = CONTRACTS + _c01_variable_bounds()
 EXTRA = [completeness, soundness_is_c01, intake_caps, formulation_uses_this_runs_inputs_only, feed_round_shape, model_is_the_templates, pinned_consumption, solver_call]
 TRUSTED = [
     "CBC's reported optimum is the optimum of the model it was given, within gapRel (NOT decided: no contract within reach expresses a solver's correctness)",
